@@ -78,13 +78,49 @@ RefineD(kind, x, c, r, seed) ==
   /\ \A i \in 1..Len(x.rel) : LET rr == DdRelRes(r, x.rel[i].id, x.rel[i].off)
                                IN rr.ok /\ Subset(x.rel[i].off, rr.v, seed + i)
   /\ (DdHasAbs(x) => Refine(kind, x.abs[1], c, DdAbsRes(r, x.abs[1]), seed))
-\* members of both values are members of the result (symbolic members; see the module header)
+(***************************************************************************)
+(* Intersection.  The tagged members are symbolic; CONCRETELY a relative   *)
+(* member (id, o) denotes rho(id) + o, which - depending on the            *)
+(* environment rho - can be ANY bit vector, and a Top member is any value. *)
+(* Soundness for all environments therefore makes the following members of *)
+(* x (and, mirrored, of y) feasible in the intersection:                   *)
+(*  (i)   absolute members that are also absolute members of y;            *)
+(*  (ii)  ALL absolute members of x as soon as y has a relative target or  *)
+(*        the Top flag;                                                    *)
+(*  (iii) relative members (id, o) with o in the offsets of id on both     *)
+(*        sides;                                                           *)
+(*  (iv)  the Top member if both sides have it.                            *)
+(* Nothing else is demanded: in particular (id1, o1) against (id2, o2)     *)
+(* with id1 # id2 may be dropped ("different identifiers do not intersect" *)
+(* is the documented, modelled deviation of DataDomain::intersect).        *)
+(* A feasible member counts as represented by the result r if r has the    *)
+(* Top flag, or holds it in the matching part; an absolute member of x     *)
+(* that is feasible only through y's relative targets is also represented  *)
+(* when r keeps ALL relative members of y (then rho(id)+o is in r whenever *)
+(* it is in y - returning y itself would be sound).                        *)
+(***************************************************************************)
+\* the absolute / relative part of r as an interval result; a Top flag represents everything
+DdAbsRep(r, dflt) == IF r.ok /\ r.v.top THEN [ok |-> TRUE, v |-> IvTop(dflt.w)] ELSE DdAbsRes(r, dflt)
+DdRelRep(r, id, dflt) == IF r.ok /\ r.v.top THEN [ok |-> TRUE, v |-> IvTop(dflt.w)] ELSE DdRelRes(r, id, dflt)
+\* r keeps every relative member of y
+DdKeepsRel(y, r, seed) ==
+  r.ok /\ \A i \in 1..Len(y.rel) : LET rr == DdRelRep(r, y.rel[i].id, y.rel[i].off)
+                                     IN rr.ok /\ Subset(y.rel[i].off, rr.v, seed + i)
+\* clauses (i) and (ii) for the absolute part of x against y
+DdAbsKept(x, y, r, seed) ==
+  DdHasAbs(x) =>
+    LET ra == DdAbsRep(r, x.abs[1])
+        all == ra.ok /\ Subset(x.abs[1], ra.v, seed)
+    IN /\ (DdHasAbs(y) => Intersect(x.abs[1], y.abs[1], ra, seed))                      \* (i)
+       /\ (y.top => all)                                                                \* (ii) Top flag
+       /\ (~y.top /\ Len(y.rel) > 0 => (all \/ DdKeepsRel(y, r, seed + 20)))            \* (ii) relative target
 IntersectD(x, y, r, seed) ==
   /\ x.w = y.w
   /\ (r.ok => r.v.w = x.w)
-  /\ (x.top /\ y.top => r.ok /\ r.v.top)
-  /\ (DdHasAbs(x) /\ DdHasAbs(y) => Intersect(x.abs[1], y.abs[1], DdAbsRes(r, x.abs[1]), seed))
-  /\ \A i \in 1..Len(x.rel) :
+  /\ (x.top /\ y.top => r.ok /\ r.v.top)                                               \* (iv)
+  /\ DdAbsKept(x, y, r, seed)
+  /\ DdAbsKept(y, x, r, seed + 40)
+  /\ \A i \in 1..Len(x.rel) :                                                         \* (iii)
        DdHasId(y, x.rel[i].id) =>
-         Intersect(x.rel[i].off, DdOff(y, x.rel[i].id), DdRelRes(r, x.rel[i].id, x.rel[i].off), seed + i)
+         Intersect(x.rel[i].off, DdOff(y, x.rel[i].id), DdRelRep(r, x.rel[i].id, x.rel[i].off), seed + i)
 =============================================================================
